@@ -166,6 +166,11 @@ func caseC16(c *Ctx) {
 			}
 			s.Cov.N["limit_plus_one"]++
 		} else {
+			// the rejected type is a relation type in every second case: nothing of it may stick to the ID
+			// that the next successful registration receives
+			if c.Case%2 == 0 {
+				extra = TypeOfKey(fmt.Sprintf("X%d", 9500+c.R.Intn(100)))
+			}
 			q := s.W.Query(ecs.All())
 			if !mustPanic(func() { ecs.TypeID(s.W, extra) }) {
 				s.fail("registry.locked", "registering a new type in a locked world did not panic")
@@ -192,6 +197,21 @@ func caseC16(c *Ctx) {
 		if !s.Failed() {
 			checkRegistry(s, "after the rejected registration")
 			step(5)
+		}
+		// registrations after a rejected one behave like any other (shape decides the relation flag, IDs stay dense)
+		for k := 0; k < 2 && !s.Failed() && len(s.IDs) < limit; k++ {
+			key := fmt.Sprintf("F%d", 9700+c.R.Intn(200))
+			if (c.Case/2+k)%2 == 1 {
+				key = fmt.Sprintf("X%d", 9700+c.R.Intn(200))
+			}
+			s.Do(&Op{K: "RegisterType", Key: key})
+			if !s.Failed() {
+				checkRegistry(s, "after a registration that follows a rejected one")
+				s.Cov.N["registration_after_rejected"]++
+			}
+			if !s.Failed() {
+				step(4)
+			}
 		}
 	}
 	chunkEdge := 241
